@@ -100,6 +100,24 @@ theorem hareQuota_foldl_ok (q : Rat) (hq : q ≠ 0) (prev : Seats) (l : Votes) (
       have : hareAdd q prev x = none := by unfold hareAdd; rw [if_neg hful]
       rw [this]
 
+theorem hareQuotaSeats_ok (votes : Votes) (n : Nat) (prev qe : Seats) (h : hareQuotaSeats votes n prev = .ok qe) :
+    n ≠ 0 ∧ 0 < sumVals votes / (n : Rat) ∧
+      votes.foldl (hareStep (sumVals votes / (n : Rat)) prev) (.ok []) = .ok qe := by
+  unfold hareQuotaSeats at h
+  by_cases hn0 : n = 0
+  · rw [if_pos hn0] at h; cases h
+  · rw [if_neg hn0] at h
+    by_cases hq : sumVals votes / (n : Rat) ≤ 0
+    · rw [if_pos hq] at h; cases h
+    · rw [if_neg hq] at h
+      exact ⟨hn0, not_le.mp hq, h⟩
+
+theorem hareQuotaSeats_of_pos (votes : Votes) (n : Nat) (prev : Seats) (hn : n ≠ 0)
+    (hq : 0 < sumVals votes / (n : Rat)) :
+    hareQuotaSeats votes n prev = votes.foldl (hareStep (sumVals votes / (n : Rat)) prev) (.ok []) := by
+  unfold hareQuotaSeats
+  rw [if_neg hn, if_neg (not_le.mpr hq)]
+
 /-! ### arithmetic of the Hare quota -/
 
 def hareContrib (q : Rat) (prev : Seats) (p : Cand × Rat) : Nat :=
@@ -258,11 +276,10 @@ theorem lrHare_fills (votes : Votes) (hne : votes ≠ []) (hv : ∀ p ∈ votes,
   | ok qe =>
     rw [hqe] at h
     simp only at h
-    unfold hareQuotaSeats at hqe
-    by_cases hn0 : n = 0
-    · rw [if_pos hn0] at hqe; simp at hqe
-    · rw [if_neg hn0] at hqe
-      obtain ⟨hqeq, hqne⟩ := hareQuota_foldl (sumVals votes / (n : Rat)) prev votes [] qe hqe
+    obtain ⟨hn0, _, hqe⟩ := hareQuotaSeats_ok votes n prev qe hqe
+    by_cases hn0' : n = 0
+    · exact absurd hn0' hn0
+    · obtain ⟨hqeq, hqne⟩ := hareQuota_foldl (sumVals votes / (n : Rat)) prev votes [] qe hqe
       rw [List.nil_append] at hqeq
       by_cases hover : n < sumSeats qe + sumSeats prev
       · rw [if_pos hover] at h; simp at h
@@ -416,9 +433,9 @@ theorem lrHare_nodup (votes : Votes) (hn : (keys votes).Nodup) (n : Nat) (prev c
       · simp only [pure, Except.pure, Except.ok.injEq] at h
         rw [← h]
         apply foldl_incSlot_nodup
-        unfold hareQuotaSeats at hqe
-        split at hqe
-        · simp at hqe
+        obtain ⟨_, _, hqe⟩ := hareQuotaSeats_ok votes n prev qe hqe
+        by_cases hdummy : False
+        · exact hdummy.elim
         · obtain ⟨hqeq, _⟩ := hareQuota_foldl _ prev votes [] qe hqe
           rw [List.nil_append] at hqeq
           have hsub := hareAdd_keys_sublist (sumVals votes / (n : Rat)) prev votes
@@ -598,8 +615,7 @@ theorem lrHare_answers (votes : Votes) (hv : ∀ p ∈ votes, 0 ≤ p.2) (hn : (
     have := hfloor_le p hp
     omega
   have hqe : hareQuotaSeats votes h [] = .ok (votes.filterMap (hareAdd q [])) := by
-    unfold hareQuotaSeats
-    rw [if_neg (by omega)]
+    rw [hareQuotaSeats_of_pos votes h [] (by omega) hq]
     have := hareQuota_foldl_ok q (ne_of_gt hq) [] votes []
     rw [List.nil_append] at this
     exact this
